@@ -944,13 +944,12 @@ class XPathToken(Token[ta.XPathTokenType]):
             elif math.isinf(obj):
                 return str(obj).upper()
 
-            value = str(obj)
+            value, _, exponent = str(obj).partition('e')
             if '.' in value:
                 value = value.rstrip('0').rstrip('.')
-            if '+' in value:
-                value = value.replace('+', '')
-            if 'e' in value:
-                return value.upper()
+            if exponent:
+                # the trailing zeros belong to the mantissa only: 1.5e+300 is not 1.5E3
+                return f"{value}E{exponent.replace('+', '')}"
             return value
 
         elif isinstance(obj, self.registry.function_token):
